@@ -26,11 +26,14 @@ EXT = {'flags': 'txt', 'env': 'env', 'exec': 'sh'}
 def cases(tier):
     cs = []
 
-    def add(name, text, expect_ok, fmt=None, outs=1):
-        cs.append({'name': name, 'text': text, 'ok': expect_ok, 'fmt': fmt, 'outs': outs})
+    def add(name, text, expect_ok, fmt=None, outs=1, src='conf.ucg'):
+        cs.append({'name': name, 'text': text, 'ok': expect_ok, 'fmt': fmt, 'outs': outs, 'src': src})
     add('flags-ok', 'let v = {a = %s, bb = "x y", c = [1, %s]};\nlet s = convert flags v;\nout flags v;\n' % (P(1), P(2)), True, 'flags')
     add('env-ok', 'let v = {A = %s, B = "it\'s"};\nlet s = convert env v;\nout env v;\n' % P(1), True, 'env')
     add('exec-ok', 'let v = {command = "run", args = ["a b", {n = %s}], env = {X = "1"}};\nlet s = convert exec v;\nout exec v;\n' % P(1), True, 'exec')
+    for src in ('site.prod.ucg', 'noext', 'd.x/conf.ucg', '.hidden.ucg', 'a.b.c.d'):
+        add('name:' + src, 'out flags {a = %s};\n' % P(1), True, 'flags', src=src)
+        add('name-env:' + src, 'out env {A = %s};\n' % P(1), True, 'env', src=src)
     add('flags-non-tuple', 'let v = %s;\nout flags v;\n' % P(1), False, 'flags')
     add('exec-no-command', 'let v = {args = ["a"]};\nout exec v;\n', False, 'exec')
     add('exec-bad-command', 'let v = {command = %s};\nout exec v;\n' % P(1), False, 'exec')
@@ -44,6 +47,14 @@ def cases(tier):
     add('error-before-out', 'let x = 1 / (%s - %s);\nout flags {a = x};\n' % (P(1), P(1)), False, 'flags')
     add('symbolic-failure', 'let x = 10 / %s;\nout flags {a = x};\n' % P(1), None, 'flags')
     return cs
+
+
+def artifact_name(src, ext):
+    """the source file's name with the format's extension: the last extension of the file name is replaced (a leading
+    dot does not start an extension), a name without extension gets one appended"""
+    d, name = src.rsplit('/', 1)
+    stem = name.rsplit('.', 1)[0] if '.' in name[1:] else name
+    return d + '/' + stem + '.' + ext
 
 
 def pieces_of(v):
@@ -77,12 +88,12 @@ def harness(ctx, case):
     prog = ctx.prog
     b = astb.B(prog)
     ucgrun.install_parse_override(prog)
-    src = '/cwd/conf.ucg'
+    src = '/cwd/' + case.get('src', 'conf.ucg')
     ctx.fs[src] = case['text']
     ints = {i: ctx.bv('a%d' % i, 64) for i in (1, 2) if SP.ph(i) in case['text']}
     ctx.parse_subst = {'ints': ints}
     env = ucgrun.make_env(ctx)
-    matches = Agg('ArgMatches', None, (MapV('HashMap').insert('INPUT', VecV(['conf.ucg'])), MapV('HashMap')))
+    matches = Agg('ArgMatches', None, (MapV('HashMap').insert('INPUT', VecV([case.get('src', 'conf.ucg')])), MapV('HashMap')))
     exited = 0
     try:
         ctx.call('build_command', [matches, VecV([]), True, env])
@@ -95,12 +106,14 @@ def harness(ctx, case):
         if e[0] == 'write':
             writes.setdefault(e[1], []).append(e[2])
     failed = exited != 0
+    want = []
 
     def report(key, what):
         m = ctx.model()
         text = SP.render_text(case['text'], m, ctx, ints)
-        out['violations'].append({'key': 'C14:%s:%s' % (key, case['name']), 'what': what + ' — conf.ucg: %r' % text,
-                                  'case': {'kind': 'cli-build', 'text': text}, 'kind': key, 'fmt': case['fmt'], 'expect_ok': not failed if case['ok'] is None else case['ok']})
+        out['violations'].append({'key': 'C14:%s:%s' % (key, case['name']), 'what': what + ' — %s: %r' % (case.get('src', 'conf.ucg'), text),
+                                  'case': {'kind': 'cli-build', 'text': text, 'src': case.get('src', 'conf.ucg')}, 'kind': key, 'fmt': case['fmt'],
+                                  'expect_ok': not failed if case['ok'] is None else case['ok'], 'want': [w[len('/cwd/'):] for w in (want if not failed else [])]})
 
     out['asserts'] += 1
     if case['ok'] is not None and failed != (not case['ok']):
@@ -120,7 +133,7 @@ def harness(ctx, case):
         out['sample'] = {'case': case['name'], 'failed': True, 'creates': creates}
         return out
     # successful build
-    want = [] if case['outs'] == 0 else ['/cwd/conf.' + EXT[case['fmt']]]
+    want = [] if case['outs'] == 0 else [artifact_name(src, EXT[case['fmt']])]
     out['asserts'] += 2
     if creates != want:
         report('wrong-artifact-name', 'artifacts created %s, expected %s' % (creates, want))
@@ -146,14 +159,22 @@ def harness(ctx, case):
 
 def judge(fw, v):
     c = v['case']
+    srcname = c.get('src', 'conf.ucg')
     with tempfile.TemporaryDirectory(prefix='ucg-verif-c14-') as d:
-        open(os.path.join(d, 'conf.ucg'), 'w').write(c['text'])
+        os.makedirs(os.path.dirname(os.path.join(d, srcname)), exist_ok=True)
+        open(os.path.join(d, srcname), 'w').write(c['text'])
+        if v['kind'] == 'wrong-artifact-name':
+            r = fw.native().cli(['build', srcname], d)
+            made = sorted(os.path.relpath(os.path.join(dp, f), d) for dp, _, fs in os.walk(d) for f in fs if os.path.join(dp, f) != os.path.join(d, srcname))
+            fw.replayed += 1
+            v['native'] = {'rc': r['rc'], 'artifacts': made}
+            return made != sorted(v.get('want') or [])
         pre = {}
         for ext in ('txt', 'env', 'sh', 'json', 'toml', 'yaml', 'xml'):
             p = os.path.join(d, 'conf.' + ext)
             open(p, 'w').write('OLD ARTIFACT\n')
             pre[ext] = 'OLD ARTIFACT\n'
-        r = fw.native().cli(['build', 'conf.ucg'], d)
+        r = fw.native().cli(['build', srcname], d)
         after = {ext: open(os.path.join(d, 'conf.' + ext)).read() for ext in pre}
     fw.replayed += 1
     v['native'] = {'rc': r['rc'], 'stderr': r['stderr'][-300:], 'artifacts': {k: x for k, x in after.items() if x != pre[k]}}
